@@ -83,10 +83,21 @@ def run(tier):
         raw = os.path.join(d, "raw_%s.ndjson" % profile)
         C.gen_cases(cnt, C.seed() * 1000 + 20 + k, raw, profile)
         run.add_batch("c02_" + profile, raw)
+    # design level: TLC enumerates programs itself and checks StrictLazyAgree (with isomorphism decided inside TLA+) on the machines;
+    # the enumerated programs are then replayed into the library (spec -> code)
+    import mcexec
+    progs, mstats, t = mcexec.run(tier, "c02_mcexec")
+    rr = __import__("astgen").rng(2)
+    sample = progs if tier == "thorough" and len(progs) < 8000 else rr.sample(progs, min(len(progs), 250 if tier == "quick" else 8000))
+    run.add_cases("c02_enum", mcexec.cases(sample, t, "c02e"))
+    run.states += mstats["distinct"]
+    run.trans += mstats["states"]
     # each mode against its own machine: only crashes are reported here (the rest is C01's business)
     run.classify_all(panic_only=True)
     stats = judge_pairs(run, run.V)
-    cov = run.coverage(RULE, {"pairs": stats})
+    cov = run.coverage(RULE, {"pairs": stats, "mcexec": {"programs_enumerated": len(progs), "in_fragment": sum(1 for p in progs if p["frag"]),
+                                                         "strict_ok": sum(1 for p in progs if p["strict"] == "ok"),
+                                                         "distinct_states": mstats["distinct"], "replayed": len(sample), "exhaustive": True}})
     cov["distinct_nontrivial"] = min(cov["distinct_nontrivial"], 2 * stats["in_fragment"])
     return run.V.finish("model_checking", cov, X.TRUSTED + [
         "membership in the fragment: TSGStatic!InFragment (static) and the machines' gntext flag (dynamic)"])
